@@ -207,6 +207,30 @@ Proof.
   - intros p i l ann. exact (C08_difference_mut ba bb _ _ outm p i l ann Wa Wb Em).
 Qed.
 
+(** Reachable states.  For any two histories of public mutating calls (over [L] resp. [R]; running
+    the same history twice gives two views of one map) and any two valid [view_at] positions, the
+    resulting views are well-formed operands — every reachable state is well-formed (C15,
+    [Common.reachable_wfm]) and [view_at] yields well-formed views ([SetOpsExtra.view_at_wf]).
+    Views derived from them by [find] / [left] / [right] / [split] are well-formed again
+    ([ViewsThm.v_find_spec], [v_side_spec]; C11), so the [view_wf] premise above is always met. *)
+Theorem C08_reachable (opsA : list (hop L)) (opsB : list (hop R)) qa qb va vb :
+  Forall (hop_ok w L) opsA -> Forall (hop_ok w R) opsB -> okp w qa -> okp w qb ->
+  t_view_at w fl L (root (hrun w fl L opsA)) qa = Some va ->
+  t_view_at w fl R (root (hrun w fl R opsB)) qb = Some vb ->
+  exists outu outd outm,
+    t_union w fl L R (v_tree va) (v_tree vb) = Some outu /\
+    t_difference w fl L R (v_tree va) (v_tree vb) = Some outd /\
+    t_difference_mut w fl L R (v_tree va) (v_tree vb) = Some outm /\
+    (forall p l ann, In (ILeft p l ann) outu -> lpm_of (v_entries pfx R vb) p ann) /\
+    (forall p ann r, In (IRight p ann r) outu -> lpm_of (v_entries pfx L va) p ann) /\
+    (forall p l ann, In (p, l, ann) outd -> lpm_of (v_entries pfx R vb) p ann) /\
+    (forall p i l ann, In (p, (i, l), ann) outm -> lpm_of (v_entries pfx R vb) p ann).
+Proof.
+  intros HA HB Hqa Hqb Ea Eb. apply C08_views.
+  - exact (view_at_wf pfx _ _ _ _ _ _ _ _ _ (laws w fl Hw) _ qa va (reachable_wfm w fl L Hw opsA HA) Hqa Ea).
+  - exact (view_at_wf pfx _ _ _ _ _ _ _ _ _ (laws w fl Hw) _ qb vb (reachable_wfm w fl R Hw opsB HB) Hqb Eb).
+Qed.
+
 End C08.
 
 (** Non-vacuity (w = 8).  Map A = {00/2 ↦ 1, 01/2 ↦ 2, 1/1 ↦ 3, 110/3 ↦ 4} over [nat] (node 0/1
@@ -274,3 +298,4 @@ Print Assumptions C08_difference_mut_get_lpm.
 Print Assumptions C08_difference_whole_map.
 Print Assumptions C08_union_whole_map.
 Print Assumptions C08_views.
+Print Assumptions C08_reachable.
